@@ -145,6 +145,7 @@ func runC20(t *zsim.Tape, cfg *hlib.Config) *hlib.Outcome {
 	enNear := t.Draw(3) == 2
 	enPanic := t.Draw(5) == 4
 	enAbort := t.Draw(3) == 2
+	enStall := t.Draw(4) == 3
 	sc.SlowStart = t.Draw(3) == 2
 	if sc.SlowStart {
 		w.Ext["spawn-delay"] = func(p *zsim.Proc) time.Duration {
@@ -259,6 +260,17 @@ func runC20(t *zsim.Tape, cfg *hlib.Config) *hlib.Outcome {
 		for i := 0; i < n; i++ {
 			at := time.Duration(t.Draw(int(activeEnd/(100*time.Millisecond)))) * 100 * time.Millisecond
 			w.After(at, func() { killWorker("timed") })
+		}
+	}
+	if enStall {
+		n := 1 + t.Draw(3)
+		for i := 0; i < n; i++ {
+			at := time.Duration(t.Draw(int(activeEnd/(100*time.Millisecond)))) * 100 * time.Millisecond
+			d := time.Duration(1+t.Draw(20)) * 100 * time.Millisecond
+			w.After(at, func() {
+				w.Fault("stall-master")
+				k.Stall(master, d)
+			})
 		}
 	}
 	if enKillAll {
